@@ -637,6 +637,7 @@ def main_single():
     nsup = 0
     global Z0
     nz0 = 0
+    nboth = 0
     for e in r.emitted:
         o, m = e["o"], e["m"]
         if e["outcome"] != "done":
@@ -681,6 +682,18 @@ def main_single():
         except Exception as ex:  # noqa: BLE001
             chk.violation("a configuration file with numeric-looking string labels raised %r" % ex, {"kind": "yaml_labels", "o": o, "m": m, "raw": raw_n}, klass={"check": "yaml_labels"})
             continue
+        # BOTH level options set (output_levels and full_output: true): the property names three exclusive cases and is silent on
+        # this one; the code lets the list win - a change of that precedence is reported as drift, never as a violation
+        if o["levels"] == "list" and nboth < 3:
+            nboth += 1
+            raw_b = copy.deepcopy(raw)
+            raw_b["domain"]["full_output"] = True
+            try:
+                hb = iface.run_bldfm_single(parse_config_dict(raw_b), parse_config_dict(raw_b).towers[o["tower"] - 1], met_index=0, surface_flux=supplied)
+                if np.shape(hb["conc"])[0] != len(raw_b["domain"]["output_levels"]):
+                    chk.drift_note("output_levels %s together with full_output: true returns %d levels (the list used to win)" % (raw_b["domain"]["output_levels"], np.shape(hb["conc"])[0]))
+            except Exception as ex:  # noqa: BLE001
+                chk.drift_note("output_levels together with full_output: true raised %r" % ex)
         for i, want in enumerate(e["log"]):
             sc = {"kind": "single", "o": o, "m": m, "step": i, "raw": raw}
             rec = Recorder(iface)
